@@ -19,6 +19,11 @@ import (
 
 var headerLikeRE = regexp.MustCompile(`(?m)^\[.+ - \d+\]$`)
 
+// headerLineRE captures the name part of a header-like line; goTestIDRE is the
+// shape the library's own header recognition accepts.
+var headerLineRE = regexp.MustCompile(`(?m)^\[(.+) - \d+\]$`)
+var goTestIDRE = regexp.MustCompile(`(?m)^\[(Test|Benchmark|Fuzz).* - \d+\]$`)
+
 type callRef struct {
 	life int
 	call *scen.Call
@@ -133,26 +138,53 @@ func init() {
 		}
 		return false
 	}
-	// K2: the file of the violating item holds (or held) a body with a line of
-	// the shape [name - n].
+	// K2: a body line of the shape [name - n] is taken for an entry header. The
+	// unchanged library misbehaves in exactly two situations, and the trigger is
+	// those two and nothing wider:
+	//  (a) lookup and update compare every line of the file with the id they are
+	//      looking for: the body line must name a test that addresses this very
+	//      file somewhere in the world (only then can the line equal a looked-up id);
+	//  (b) the file-level check of an unused file (fileOfSkippedTests) reads every
+	//      line that getTestID accepts as an id: the violating item is the file
+	//      itself and the line starts with [Test, [Benchmark or [Fuzz.
+	// A header-like line with any other name is harmless on the unchanged tree.
 	triggers["header-like-body-line"] = func(w *check.World, v *check.Violation) bool {
 		f := violFile(w, v)
+		fileLevel := false
+		if f == "" && strings.HasPrefix(v.Item, "/") {
+			f, fileLevel = v.Item, true
+		} else if f != "" && v.Item == f {
+			fileLevel = true
+		}
 		if f == "" {
 			return false
 		}
-		for _, c := range worldCalls(w) {
-			if c.file == f && headerLikeRE.MatchString(c.text) {
+		calls := worldCalls(w)
+		names := map[string]bool{}
+		for _, c := range calls {
+			if c.file == f {
+				names[c.test] = true
+			}
+		}
+		hit := func(text string) bool {
+			for _, m := range headerLineRE.FindAllStringSubmatch(text, -1) {
+				if names[m[1]] {
+					return true
+				}
+				if fileLevel && goTestIDRE.MatchString(m[0]) {
+					return true
+				}
+			}
+			return false
+		}
+		for _, c := range calls {
+			if c.file == f && hit(c.text) {
 				return true
 			}
 			// a standalone file whose raw value looks like an entry header is read as a
-			// multi-entry file by Clean
-			if c.file == "" && scen.Standalone(c.call.API) && headerLikeRE.MatchString(c.text) && standaloneFileOf(w, c, f) {
+			// multi-entry file by Clean's file-level check
+			if c.file == "" && scen.Standalone(c.call.API) && goTestIDRE.MatchString(c.text) && standaloneFileOf(w, c, f) {
 				return true
-			}
-		}
-		for _, p := range w.Pre {
-			if p.Path == f {
-				return false
 			}
 		}
 		return false
@@ -226,7 +258,7 @@ func neutralise(w *check.World, id string) *check.World {
 			switch {
 			case id == "K1" && l == "/-/-/-/":
 				lines[i] = "/-/-/-/ x"
-			case id == "K2" && headerLikeRE.MatchString(l):
+			case id == "K2" && headerLikeRE.MatchString(l) && k2Relevant(w, l):
 				lines[i] = "(" + l[1:]
 			}
 		}
@@ -284,4 +316,23 @@ func causal(env *check.Env, w *check.World, kv *check.Violation, prop string) bo
 		}
 	}
 	return true
+}
+
+// k2Relevant: the header-like line has the shape the library's own header
+// recognition accepts, or names a test of the world (the two situations of the K2
+// trigger); any other header-like line stays in place when the trigger is neutralised.
+func k2Relevant(w *check.World, line string) bool {
+	if goTestIDRE.MatchString(line) {
+		return true
+	}
+	m := headerLineRE.FindStringSubmatch(line)
+	if m == nil {
+		return false
+	}
+	for _, c := range worldCalls(w) {
+		if c.test == m[1] {
+			return true
+		}
+	}
+	return false
 }
